@@ -545,6 +545,10 @@ func RunTokenSep(w *World, r *Report, entries []string) {
 			text += " " + valueText(call.Common().Args[1])
 		}
 		key := r.MkKey("tokensep", fnName(fn), text)
+		if strings.HasPrefix(wr.text, "Fprintf ") && hyphenBeforeName(wr.text) {
+			r.FailC("tokensep", key, []string{"hyphendigit"}, w.Pos(s.Pos()), "the format writes a hyphen directly in front of a glyph name: for a font without glyph names the name is a number, and the lexer reads \"-7\" as a negative integer instead of a hyphen and a glyph (the range 5-7 does not parse back)", nil)
+			continue
+		}
 		if ts.sites[s]&tsA != 0 {
 			r.Fail("tokensep", key, w.Pos(s.Pos()), fmt.Sprintf("this write begins with an identifier character and can follow a write that ended with one, with nothing in between (reached through %s): the description then contains the two glued into one token and does not parse back", ts.via[s]), nil)
 		} else {
@@ -709,4 +713,117 @@ func RunPrinterKeywords(w *World, r *Report, entries []string, parse string) {
 			r.Fail("keywords", key, o.pos, fmt.Sprintf("the printer writes the word %q, which is no string constant of the parser: a description containing it does not parse back", o.word), nil)
 		}
 	}
+}
+
+// RunRangeStart: a loop that validates the elements of a slice under a flag
+// ("all of them are single glyphs, so the range form can be used") has to
+// start at the first element the guarded code then uses. A validation loop
+// that starts at index 1 while the code under the flag reads element 0 lets an
+// unvalidated first element through.
+func RunRangeStart(w *World, r *Report, fns []*ssa.Function) {
+	r.Rule("rangestart: where a loop with a counter that starts at a positive constant reads the elements x[i] of a slice and keeps a boolean flag, no block that is reached only while that flag holds reads x[0]: the element the loop skipped is not used as if it had been checked")
+	n := 0
+	for _, fn := range fns {
+		if len(fn.Blocks) == 0 {
+			continue
+		}
+		for _, l := range naturalLoops(fn) {
+			var ctr *ssa.Phi
+			var flags []*ssa.Phi
+			for _, in := range l.head.Instrs {
+				ph, ok := in.(*ssa.Phi)
+				if !ok {
+					break
+				}
+				if bt, ok := ph.Type().Underlying().(*types.Basic); ok && bt.Kind() == types.Bool {
+					flags = append(flags, ph)
+					continue
+				}
+				if !isIntegerType(ph.Type()) {
+					continue
+				}
+				for i, e := range ph.Edges {
+					if l.head.Dominates(l.head.Preds[i]) {
+						continue
+					}
+					if c, ok := e.(*ssa.Const); ok && c.Value != nil && c.Int64() >= 1 {
+						ctr = ph
+					}
+				}
+			}
+			if ctr == nil || len(flags) == 0 {
+				continue
+			}
+			// slices indexed by the counter inside the loop
+			bases := map[ssa.Value]bool{}
+			for b := range l.body {
+				for _, in := range b.Instrs {
+					if ia, ok := in.(*ssa.IndexAddr); ok && ia.Index == ssa.Value(ctr) {
+						bases[cellOf(ia.X)] = true
+					}
+				}
+			}
+			if len(bases) == 0 {
+				continue
+			}
+			n++
+			key := r.MkKey("rangestart", fnName(fn), "validation loop "+loopText(w, fn, l))
+			bad := ""
+			for _, b := range fn.Blocks {
+				if l.body[b] {
+					continue
+				}
+				for _, in := range b.Instrs {
+					ia, ok := in.(*ssa.IndexAddr)
+					if !ok || !bases[cellOf(ia.X)] {
+						continue
+					}
+					c, ok := ia.Index.(*ssa.Const)
+					if !ok || c.Value == nil || c.Int64() != 0 {
+						continue
+					}
+					for _, g := range guardsOf(b) {
+						for _, fl := range flags {
+							if g.cond == ssa.Value(fl) && g.then {
+								bad = w.Pos(ia.Pos())
+							}
+						}
+					}
+				}
+			}
+			if bad != "" {
+				r.Fail("rangestart", key, w.Pos(loopPos(w, l)), "the loop checks the elements from index "+ctr.Edges[0].String()+" on, but element 0 of the same slice is read at "+bad+" under the flag the loop maintains: a first element that would have failed the check is used as if it had passed", nil)
+			} else {
+				r.OK("rangestart", key, w.Pos(loopPos(w, l)), "element 0 is not read under the flag")
+			}
+		}
+	}
+	if n == 0 {
+		r.OK("rangestart", r.MkKey("rangestart", "scope", "validation loops"), "-", "no validation loop with a positive start index")
+	}
+}
+
+// cellOf: a variable that lives in a cell (it is captured by a closure) is
+// identified by the cell, not by the individual loads.
+func cellOf(v ssa.Value) ssa.Value {
+	if u, ok := v.(*ssa.UnOp); ok && u.Op.String() == "*" {
+		if al, ok := u.X.(*ssa.Alloc); ok {
+			return al
+		}
+	}
+	return v
+}
+
+// hyphenBeforeName: a format string in which '-' is directly followed by a
+// verb that prints a name or a number without a sign.
+func hyphenBeforeName(f string) bool {
+	for i := 0; i+2 < len(f); i++ {
+		if f[i] == '-' && f[i+1] == '%' && (i == 0 || f[i-1] != '%') {
+			switch f[i+2] {
+			case 's', 'v', 'd':
+				return true
+			}
+		}
+	}
+	return false
 }
